@@ -185,7 +185,7 @@ def handle (cmd : String) (args : List String) : Option String :=
     let ft := floatText (← parseFloatTab tab)
     let hd ← (← parseHeader h)
     let r ← parseRecordToks rec
-    some ("ok " ++ hexOfBytes (Hts.Spec.SamLine.samLine ft.fmt (toSpec r)) ++ " " ++ boolStr (decide (Expressible hd r)))
+    some ("ok " ++ hexOfBytes (Hts.Spec.SamLine.samLine ft.fmt (toSpec r)) ++ " " ++ boolStr (decide (HeaderOK hd ∧ Expressible hd r)))
   | "c06.parse", [h, tab, line] => do
     let ft := floatText (← parseFloatTab tab)
     some (showRes showRecord (parseRecord ft (← parseHeader h) (← bytesOfHex line)))
